@@ -44,6 +44,10 @@ def run(rep, tier):
     c03.integer_kernel(rep, F, rule="R8.7")
     from . import c05
     c05.least_index_table(rep, F, rule="R8.8")      # Graham's pivot
+    c05.extreme_index_table(rep, F, rule="R8.11")    # quick hull's starting pair
+    from ..report import Alias
+    rep.rule("R8.12", "every orient2d argument in the hull code and in is_convex (the oracle of the convex-ring clause) is a bit-copy of an input coordinate (C03 R3.4)")
+    c03.orient_args(Alias(rep, "R8.12"), F)
     # the hull is computed from exterior_coords_iter(): every exterior coordinate of every member must be handed over (tables shared with C19)
     from . import c19
     c19.traversal_tables(rep, F, rule="R8.9")
